@@ -1,4 +1,4 @@
-SPECIFICATION Spec
+SPECIFICATION FairSpec
 CONSTANTS
   Chains = {1, 2, 3}
   Slack = 2
@@ -7,23 +7,16 @@ CONSTANTS
   Limit = 3
   Window = 4
   MaxRound = 3
-  MaxSnaps = 8
+  MaxSnaps = 6
   MaxEarly = 1
   Late = {}
   MaxPub = 1
-  MaxAhead = 1
+  MaxAhead = 0
   Interleave = FALSE
   Faults = FALSE
   RefChoice = FALSE
-  RemoteAnytime = FALSE
-  Eager = TRUE
+  RemoteAnytime = TRUE
+  Eager = FALSE
   Track = FALSE
-VIEW View
-INVARIANT TypeOK
-INVARIANT RemoteClosed
-INVARIANT NeverDropped
-PROPERTY SinceSafe
-PROPERTY OffsetMin
-PROPERTY HeadSafe
-PROPERTY HeadCoversFrontier
+PROPERTY Progress
 CHECK_DEADLOCK FALSE
